@@ -40,6 +40,30 @@ CHECKS = {
  "C20": dict(cat="exploration", tech="Hypothesis generation of args_definitions + per-definition enumeration of uses and single-edit invalid uses vs. reference recogniser interpreting the same definition; round trip",
    text="Randomised definitions, bounded-exhaustive uses per definition; verdict, argument recording and print/parse round trip checked.",
    note="Trusted: harness translation of a definition into a reference table entry (vf/props/c20.py:to_entry)."),
+ "C05": dict(cat="exploration", tech="differential (segmented vs single-chunk delivery) over Hypothesis replies x exhaustive cut placements / recv caps / k-way splits, with sentinel operations",
+   text="For every generated reply all single cuts (and all pairs for short replies) are enumerated, plus capped and random splits; observable behaviour must equal the unsegmented run and the reply must be consumed exactly.",
+   note="Trusted: fake transport vf/msref/transport.py; replies come from the RFC 5804 reply grammar generator."),
+ "C08": dict(cat="exploration", tech="Hypothesis argument fuzzing of every client operation; oracle: strict RFC 5804 command parser applied to the bytes given to sendall",
+   text="Randomised exploration of script names/contents/sizes over a hostile alphabet; the written bytes must parse strictly to exactly one intended command with the caller's values.",
+   note="Trusted: strict command parser vf/msref/wire.py."),
+ "C09": dict(cat="exploration", tech="Hypothesis generation of status replies from the RFC 5804 response grammar x operations, expected outcome computed from the abstract reply; fault injection at each step of multi-step operations",
+   text="Randomised exploration of reply shapes (status x code x text form) for every operation, NO/BYE at each step of multi-step operations, sentinel operation after each.",
+   note="Expected results derive from the generated abstract reply, never from re-parsing."),
+ "C10": dict(cat="exploration", tech="Hypothesis call histories x handshake fault injection x capability sets against a reference server with plain/TLS channel write log; introspection-driven enumeration of public methods",
+   text="Randomised histories over the public API with faults at every handshake step; ordering of writes relative to authentication and the simulated TLS handshake is checked on the write log.",
+   note="TLS is simulated; the static reachability clause is approximated dynamically (DESIGN C10)."),
+ "C14": dict(cat="fault_enumeration", tech="exhaustive enumeration of initial states x fault placement x fault kind x bodies x reply encodings against a reference ManageSieve server",
+   text="Complete enumeration (8064 cases) of the stated product space; the reference server's store before/after is the oracle.",
+   note="Trusted: reference server vf/msref/server.py; 'not at all' = read timeout."),
+ "C15": dict(cat="exploration", tech="model-based stateful testing (Hypothesis RuleBasedStateMachine) against an executable reference server with drawn reply encodings, NO outcomes and recv segmentation",
+   text="Randomised sessions up to 40 operations; after every step result, intended-effects model, violation log and receive queue are checked.",
+   note="Trusted: reference server and strict parser."),
+ "C16": dict(cat="exploration", tech="exhaustive enumeration of announced-mechanism lists x preferred mechanism + Hypothesis unicode credentials; payload decoded by reference SASL servers",
+   text="Selection rule checked on all 1045 lists x 7 preferences; payload exactness on randomised credentials for PLAIN, LOGIN, OAUTHBEARER, DIGEST-MD5.",
+   note="Trusted: vf/msref/sasl.py (self-tested on RFC examples)."),
+ "C17": dict(cat="exploration", tech="Hypothesis generation of look-alike bodies and name sets served in every permitted encoding (enumerated); oracle: equality with what was served",
+   text="Randomised data values x exhaustive encodings per value; transparency of getscript/listscripts checked with a sentinel afterwards.",
+   note="Bodies compared line-wise as the property states."),
 }
 
 NOT_YET = {
